@@ -10,6 +10,10 @@
 //! `*total_out` = bytes delivered so far (pushed + taken), has_more / is_finished; after destroy
 //! the counting allocator must have no live block.  One-shot BrotliEncoderCompress, CompressMulti
 //! (desired threads 0..32) and the work-pool calls are compared with their Rust counterparts.
+//! An output-buffer grid (`grid_case`) drives the multi / work-pool / one-shot entry points with
+//! buffers {0, 1, tiny, exact-1, exact, bound-1, bound} x desired threads {0,1,2,4,16,17,32} x
+//! {CompressMulti, work pool NULL, work pool real}: success implies size <= buffer, both decoders
+//! accept, and the bytes equal the Rust API's.
 //! Correspondence (`ffi S …`, `ffi M n`, `ffi O n c`): the Lean model of the wrappers gets what
 //! the C caller passed and what the twin Rust call answered, and must predict every out-value.
 //! Everything runs in child processes (a panic that crosses `extern "C"` aborts): a child that
@@ -351,6 +355,89 @@ fn multi_case(rng: &mut Rng, rep: &mut Report, corr: &mut Vec<(String, String)>,
     }
 }
 
+
+/// the output-buffer grid: multi / work-pool / one-shot calls whose output buffer is one of
+/// {0, 1, tiny, exact-1, exact, bound-1, bound} (exact = the size the same call produces into a
+/// bound-sized buffer) x desired threads {0,1,2,4,16,17,32} x {CompressMulti, work pool with a NULL
+/// pool, work pool with a real pool} x inputs that do not fit the small classes.
+/// Oracle: return 1 => *encoded_size <= buffer, the bytes decode (both decoders) to the input and
+/// equal what the Rust API produces for the same settings; return 0 is a violation only when the
+/// buffer has the advertised bound.
+fn grid_case(idx: u64, seed: u64, rep: &mut Report) {
+    const THREADS: [usize; 7] = [0, 1, 2, 4, 16, 17, 32];
+    let ti = (idx % 7) as usize; let pool_mode = ((idx / 7) % 3) as usize; let input_kind = ((idx / 21) % 3) as usize; let q = [2u32, 5, 9, 0][((idx / 63) % 4) as usize];
+    let desired = THREADS[ti];
+    let mut rng = Rng::new(seed ^ 0x6A1D ^ (idx << 20));
+    let data: Vec<u8> = match input_kind { 0 => (0..3000).map(|_| rng.below(256) as u8).collect(), 1 => (0..5000).map(|i| b"the quick brown fox jumps over the lazy dog. "[i % 45]).collect(), _ => (0..60).map(|_| rng.below(256) as u8).collect() };
+    let lgwin = 16u32;
+    let keys = [P::BROTLI_PARAM_QUALITY, P::BROTLI_PARAM_LGWIN]; let vals = [q, lgwin];
+    let threads = desired.min(16);
+    let bound = brotli::enc::BrotliEncoderMaxCompressedSizeMulti(data.len(), threads.max(1));
+    let call = |cap: usize, out: &mut Vec<u8>| -> (i32, usize) { unsafe {
+        *out = vec![0xEEu8; cap.max(1)]; let mut sz = cap;
+        let r = match pool_mode {
+            0 => m::BrotliEncoderCompressMulti(2, keys.as_ptr(), vals.as_ptr(), data.len(), data.as_ptr(), &mut sz, out.as_mut_ptr(), desired, None, None, core::ptr::null_mut()),
+            1 => m::BrotliEncoderCompressWorkPool(core::ptr::null_mut(), 2, keys.as_ptr(), vals.as_ptr(), data.len(), data.as_ptr(), &mut sz, out.as_mut_ptr(), desired, None, None, core::ptr::null_mut()),
+            _ => { let pool = m::BrotliEncoderCreateWorkPool(4, None, None, core::ptr::null_mut()); let r = m::BrotliEncoderCompressWorkPool(pool, 2, keys.as_ptr(), vals.as_ptr(), data.len(), data.as_ptr(), &mut sz, out.as_mut_ptr(), desired, None, None, core::ptr::null_mut()); if !pool.is_null() { m::BrotliEncoderDestroyWorkPool(pool); } r }
+        };
+        (r, sz)
+    } };
+    // reference through the Rust API for the same settings
+    // (only CompressMulti — and the work-pool call with a NULL pool, which forwards to it — take the
+    // single-stream helper for one thread; a real pool runs the multi-thread code with one job)
+    let single = threads == 1 && pool_mode != 2;
+    let reference: Option<Vec<u8>> = if desired == 0 { None } else if single {
+        let mut e = BrotliEncoderStateStruct::new(StandardAlloc::default()); e.set_parameter(P::BROTLI_PARAM_QUALITY, q); e.set_parameter(P::BROTLI_PARAM_LGWIN, lgwin);
+        let mut out = vec![0u8; bound + 64]; let (mut ai, mut io_, mut ao, mut oo) = (data.len(), 0usize, out.len(), 0usize); let mut to = Some(0);
+        let ok = e.compress_stream(ROp::BROTLI_OPERATION_FINISH, &mut ai, &data, &mut io_, &mut ao, &mut out, &mut oo, &mut to, &mut |_a, _b, _c, _d| ());
+        if ok && e.is_finished() { out.truncate(oo); Some(out) } else { None }
+    } else {
+        let mut params = BrotliEncoderParams::default();
+        brotli::enc::encode::set_parameter(&mut params, P::BROTLI_PARAM_QUALITY, q); brotli::enc::encode::set_parameter(&mut params, P::BROTLI_PARAM_LGWIN, lgwin);
+        let mut allocs: Vec<_> = (0..threads).map(|_| SendAlloc::new(StandardAlloc::default(), UnionHasher::Uninit)).collect();
+        let mut rout = vec![0u8; bound + 64];
+        match brotli::enc::compress_multi_no_threadpool(&params, &mut Owned::new(OwnedVec(data.clone())), &mut rout, &mut allocs[..]) { Ok(n) => { rout.truncate(n); Some(rout) } Err(_) => None }
+    };
+    let exact = reference.as_ref().map(|r| r.len()).unwrap_or(bound);
+    let classes: [(&str, usize); 7] = [("0", 0), ("1", 1), ("tiny", 5), ("exact-1", exact.saturating_sub(1)), ("exact", exact), ("bound-1", bound.saturating_sub(1)), ("bound", bound)];
+    for (cname, cap) in classes.iter() {
+        let case = format!("{{\"grid\":{{\"entry\":{},\"desired\":{},\"q\":{},\"lgwin\":{},\"input\":{},\"buffer_class\":{},\"buffer\":{},\"exact\":{},\"bound\":{}}}}}", jstr(["CompressMulti", "CompressWorkPool(NULL pool)", "CompressWorkPool(pool of 4)"][pool_mode]), desired, q, lgwin, jstr(&hex(&data)), jstr(cname), cap, exact, bound);
+        rep.evaluations += 1; rep.count(&format!("grid.buffer.{}", cname)); rep.count(&format!("grid.desired.{}", desired)); rep.count(&format!("grid.entry.{}", pool_mode));
+        let mut out = vec![]; let (ret, sz) = call(*cap, &mut out);
+        if desired == 0 { if ret != 0 || sz != *cap { rep.violation("ffi:multi:zero-threads-not-rejected", &format!("desired_num_threads = 0 returned {} (encoded_size {} of {})", ret, sz, cap), case); } continue; }
+        if *cap < exact { rep.nontrivial += 1; }
+        if ret != 0 {
+            rep.count("grid.returned_1");
+            let one = if single { ":single-thread-path" } else { "" };
+            if sz > *cap { rep.violation(&format!("ffi:multi:size-exceeds-buffer{}", one), &format!("returned 1 with *encoded_size = {} > buffer {}", sz, cap), case); continue; }
+            if let Err(e) = crate::dec::decode_both(&out[..sz], false, &data) { rep.violation(&format!("ffi:multi:success-but-undecodable{}", one), &format!("returned 1 with a {}-byte buffer ({}), {} bytes reported: {}", cap, cname, sz, e), case); continue; }
+            match &reference { Some(r) if r[..] == out[..sz] => rep.count("grid.equals_rust_api"), Some(r) => rep.violation("ffi:multi:thread-clamp-or-bytes-differ", &format!("{} bytes, the Rust API for the same settings gives {}", sz, r.len()), case), None => rep.violation("ffi:multi:rust-api-fails", "the Rust API failed for the same settings with a bound-sized buffer", case) }
+        } else {
+            rep.count("grid.returned_0");
+            if *cap >= bound && q >= 2 { rep.violation("ffi:multi:failed", &format!("returned 0 although the buffer has the advertised bound ({} bytes)", bound), case); }
+        }
+    }
+    // the one-shot entry point over the same buffer classes
+    if pool_mode == 0 && ti == 1 { unsafe {
+        let obound = brotli::enc::BrotliEncoderMaxCompressedSize(data.len());
+        let probe = { let mut o = vec![0u8; obound.max(1)]; let mut sz = obound; let r = c::BrotliEncoderCompress(q as i32, lgwin as i32, c::BrotliEncoderMode::BROTLI_MODE_GENERIC, data.len(), data.as_ptr(), &mut sz, o.as_mut_ptr()); if r != 0 { sz } else { obound } };
+        for (cname, cap) in [("0", 0usize), ("1", 1), ("tiny", 5), ("exact-1", probe.saturating_sub(1)), ("exact", probe), ("bound-1", obound.saturating_sub(1)), ("bound", obound)] {
+            let case = format!("{{\"grid_oneshot\":{{\"q\":{},\"lgwin\":{},\"input\":{},\"buffer_class\":{},\"buffer\":{}}}}}", q, lgwin, jstr(&hex(&data)), jstr(cname), cap);
+            rep.evaluations += 1; rep.count(&format!("grid.oneshot.buffer.{}", cname));
+            let mut o = vec![0xEEu8; cap.max(1)]; let mut sz = cap;
+            let r = c::BrotliEncoderCompress(q as i32, lgwin as i32, c::BrotliEncoderMode::BROTLI_MODE_GENERIC, data.len(), data.as_ptr(), &mut sz, o.as_mut_ptr());
+            let mut ro = vec![0u8; cap]; let mut rsz = cap; let mut m8 = StandardAlloc::default();
+            let rr = brotli::enc::encode::BrotliEncoderCompress(StandardAlloc::default(), &mut m8, q as i32, lgwin as i32, rmode(0), data.len(), &data, &mut rsz, &mut ro, &mut |_a, _b, _c, _d| ());
+            if r != rr { rep.violation("ffi:oneshot:return-differs", &format!("C ABI returned {} but the Rust API {}", r, rr), case); continue; }
+            if r != 0 {
+                if sz > cap { rep.violation("ffi:oneshot:size-exceeds-capacity", &format!("*encoded_size = {} > {}", sz, cap), case); continue; }
+                if let Err(e) = crate::dec::decode_both(&o[..sz], false, &data) { rep.violation("ffi:oneshot:success-but-undecodable", &format!("returned 1 with a {}-byte buffer: {}", cap, e), case); continue; }
+                if sz != rsz || o[..sz] != ro[..rsz] { rep.violation("ffi:oneshot:bytes-differ", &format!("encoded_size {} vs {}", sz, rsz), case); }
+            } else if cap >= obound && obound != 0 { rep.violation("ffi:oneshot:failed-with-bound-buffer", &format!("returned 0 although the buffer has the advertised bound ({})", obound), case); }
+        }
+    } }
+}
+
 /// contract violations that must come back as return values, never as an abort.
 /// (A NULL pointer together with a NON-zero count is outside the documented contract — the wrappers
 /// hand it to `slice::from_raw_parts`, as the C library would dereference it; pointer validity is
@@ -449,6 +536,9 @@ fn run_shard(args: &Args, shard: u64, nshards: u64) {
     let mut lines = vec![];
     for j in (0..33 * reps).filter(|j| j % nshards == shard) { let desired = (j % 33) as usize; let mut rng = Rng::new(args.seed ^ 0x3017 ^ (j << 20)); std::fs::write(args.out.join("current.txt"), format!("{{\"multi_index\":{},\"desired\":{}}}", j, desired)).ok(); multi_case(&mut rng, &mut rep, &mut lines, desired); }
     for (o, a) in lines { corr.case(&o, &a); }
+    // output-buffer grid: 7 thread counts x 3 entry points x 3 inputs x 4 qualities (x 7 buffer classes each)
+    let ngrid: u64 = if thorough { 7 * 3 * 3 * 4 * 4 } else { 7 * 3 * 3 * 4 };
+    for g in (0..ngrid).filter(|g| g % nshards == shard) { std::fs::write(args.out.join("current.txt"), format!("{{\"grid_index\":{}}}", g)).ok(); grid_case(g, args.seed.wrapping_add(g / 252), &mut rep); }
     if shard == 0 {
         for d in 0..=40usize { corr.case(&format!("ffi M {}", d), &(if d == 0 { "reject".to_string() } else if d.min(16) == 1 { "single".into() } else { format!("multi:{}", d.min(16)) })); }
         std::fs::write(args.out.join("current.txt"), "{\"risky\":true}").ok();
